@@ -77,7 +77,9 @@ func dleqCase(t *rapid.T, si suiteInfo) {
 		st.B = append(st.B, b)
 		st.kB = append(st.kB, g.NewElement().Mul(b, k1))
 	}
-	rr, _ := si.drawScalar(t, false, "rnd")
+	// the prover's randomness is non-zero: with r = 0 and k = 0 the response s is 0 and the
+	// proof does not involve A at all (RFC 9497 does not hash the fixed generator A)
+	rr, _ := si.drawScalar(t, true, "rnd")
 	desc := fmt.Sprintf("group=%s hash=%v dst=%x k=%x r=%x %s", si.name, h, dst, serS(k1), serS(rr), st)
 
 	// ---- honest proof
@@ -195,7 +197,7 @@ func dleqCase(t *rapid.T, si suiteInfo) {
 		switch kind {
 		case "A":
 			st2.A = other(st.A)
-			ident = st2.A.IsEqual(st.A)
+			ident = st2.A.IsEqual(st.A) || si.bytesToBig(pb[L:]).Sign() == 0
 		case "kA":
 			st2.kA = other(st.kA)
 			ident = st2.kA.IsEqual(st.kA)
@@ -269,8 +271,11 @@ func dleqCase(t *rapid.T, si suiteInfo) {
 				}
 				what = kind + " " + how
 			}
-			res := func(b []byte) *big.Int { return new(big.Int).Mod(si.bytesToBig(b), si.order) }
-			ident = res(pb2[:L]).Cmp(res(pb[:L])) == 0 && res(pb2[L:]).Cmp(res(pb[L:])) == 0
+			ident = bytes.Equal(pb2, pb)
+			if !ident && si.sameProofScalars(pb2, pb) {
+				vlib.Class(asub, "noncanonical-alias-of-the-same-scalars (C09; not asserted)")
+				continue
+			}
 		}
 		if ident {
 			vlib.Class(asub, "alteration-was-identity")
@@ -355,7 +360,7 @@ func TestC16DLEQ(t *testing.T) {
 	for _, si := range allSuites {
 		si := si
 		t.Run(si.name, func(t *testing.T) {
-			vlib.Check(t, vlib.N(60, 700)/si.cost, func(t *rapid.T) { dleqCase(t, si) })
+			vlib.Check(t, si.cases([4]int{150, 150, 30, 14}, 5), func(t *rapid.T) { dleqCase(t, si) })
 		})
 	}
 }
@@ -456,7 +461,7 @@ func dlCase(t *rapid.T, si suiteInfo) {
 	nalt := rapid.IntRange(3, 5).Draw(t, "nalt")
 	for a := 0; a < nalt; a++ {
 		lbl := fmt.Sprintf("a%d", a)
-		kind := rapid.SampledFrom([]string{"V", "R", "R", "userID", "userID", "otherInfo", "otherInfo", "boundary", "swap-labels", "G", "kG"}).Draw(t, lbl+".kind")
+		kind := rapid.SampledFrom([]string{"V", "R", "R", "V+dG,R+d", "userID", "userID", "otherInfo", "otherInfo", "boundary", "swap-labels", "G", "kG"}).Draw(t, lbl+".kind")
 		G2, kG2, p2, u2, o2 := G, kG, dl.Proof{V: pr.V.Copy(), R: pr.R.Copy()}, uid, oi
 		what := kind
 		ident := false
@@ -488,6 +493,14 @@ func dlCase(t *rapid.T, si suiteInfo) {
 			ident = nv.Cmp(new(big.Int).Mod(old, si.order)) == 0
 			p2.R = si.scalarFromBig(nv)
 			what = "R " + how
+		case "V+dG,R+d":
+			// the one coordinated change that keeps V = R·G + c·kG true for an unchanged c: it
+			// must be refused because the challenge binds the commitment V
+			d, dv := si.drawScalar(t, true, lbl+".d")
+			p2.V = g.NewElement().Add(pr.V, g.NewElement().Mul(G, d))
+			p2.R = g.NewScalar().Add(pr.R, d)
+			what = fmt.Sprintf("V+dG,R+d d=%v", dv)
+			ident = p2.V.IsEqual(pr.V)
 		case "userID":
 			var how string
 			u2, how = alterBytes(uid, lbl)
@@ -566,7 +579,7 @@ func TestC16DL(t *testing.T) {
 	for _, si := range allSuites {
 		si := si
 		t.Run(si.name, func(t *testing.T) {
-			vlib.Check(t, vlib.N(80, 900)/si.cost, func(t *rapid.T) { dlCase(t, si) })
+			vlib.Check(t, si.cases([4]int{200, 200, 60, 30}, 5), func(t *rapid.T) { dlCase(t, si) })
 		})
 	}
 }
@@ -950,5 +963,5 @@ func TestC16QNDLEQ(t *testing.T) {
 	if poolErr != nil {
 		t.Fatalf("SELFTEST-FAIL safe prime pool: %v", poolErr)
 	}
-	vlib.Check(t, vlib.N(250, 2500), func(t *rapid.T) { qndleqCase(t) })
+	vlib.Check(t, vlib.N(400, 2000), func(t *rapid.T) { qndleqCase(t) })
 }
